@@ -890,12 +890,16 @@ class EquivPos2(Macro):
         self.limit = None
 
     def eval(self, args, prevs=None):
+        if len(args) != 3:
+            raise VeriTException("equiv_pos2", "clause must have three literals")
         arg1, arg2, arg3 = args
+        if not (arg1.is_not() and arg1.arg.is_equals() and arg1.arg.arg.get_type() == BoolType):
+            raise VeriTException("equiv_pos2", "first literal must be a negated equivalence")
         eq_tm = arg1.arg
         if Not(eq_tm.arg1) == arg2 and eq_tm.arg == arg3:
             return Thm(Or(*args))
         else:
-            raise VeriTException("equiv_pos2", "unexpected goal %s" % Or(*args))
+            raise VeriTException("equiv_pos2", "unexpected goal")
     
     def get_proof_term(self, args, prevs):
         return logic.apply_theorem("equiv_pos2", concl = Or(*args))
